@@ -499,7 +499,7 @@ def minmax_of_ifexp(n: ast.IfExp, T: Translator) -> Optional[sp.Expr]:
         return None
     a, b = T.tr(t.left), T.tr(t.comparators[0])
     x, y = T.tr(n.body), T.tr(n.orelse)
-    if any(isinstance(v, sp.logic.boolalg.Boolean) for v in (a, b, x, y)):
+    if any(v in (sp.true, sp.false) or isinstance(v, (sp.core.relational.Relational, sp.And, sp.Or, sp.Not)) for v in (a, b, x, y)):
         return None         # `True if a < b else False`: a decision, not a min/max
     op = t.ops[0]
     if isinstance(op, (ast.Gt, ast.GtE)):
